@@ -387,16 +387,25 @@ def run_check(prop, suites, tier, seed, level_note, trusted_extra=(), replay=Non
             corpus = load_corpus(prop, suite.name)
             cases = corpus + list(suite.gen(tier, rng))
         cos = []
+        crashed = []
         for c in cases:
             try:
                 o = suite.run(c)
             except Exception as e:  # the runner itself must not raise: that is a harness/impl surprise
                 o = {"harness_exception": exc_class(e), "trace": traceback.format_exc()[-800:]}
+            if isinstance(o, dict) and "harness_exception" in o:
+                # the library raised where every modelled run returns a value or one of the documented exceptions that
+                # the runner maps itself: the property cannot hold on this input as stated -> a violation with the
+                # input as replay (never passed to Coq: the judges have no encoding for it)
+                crashed.append((c, o))
+                continue
             cos.append((c, o))
             suite.stats(c, o, acc)
             if suite.nontrivial(c, o):
                 distinct.add(canon_hash([suite.name, c]))
-        total += len(cos)
+        total += len(cos) + len(crashed)
+        for c, o in crashed:
+            violations.append(("spec", suite, c, o, None))
         if not getattr(suite, "exhaustive", False):
             exhaustive = False
         codes, errors = evaluate_suite(prop, suite, cos, workdir) if cos else ([], [])
@@ -422,7 +431,8 @@ def run_check(prop, suites, tier, seed, level_note, trusted_extra=(), replay=Non
                     violations.append(("corr", suite, c, o, None))
         if cos and len(samples) < 6:
             samples.append({"suite": suite.name, "case": cos[len(cos) // 2][0], "observed": cos[len(cos) // 2][1]})
-        per_suite[suite.name] = {"cases": len(cos), "model_disagreements": nm, "spec_failures": ns,
+        ns += len(crashed)
+        per_suite[suite.name] = {"cases": len(cos) + len(crashed), "unexpected_exceptions": len(crashed), "model_disagreements": nm, "spec_failures": ns,
                                  "wall_s": round(time.time() - ts, 1)}
         if acc:
             stats[suite.name] = acc
